@@ -489,7 +489,7 @@ impl Report {
         let req = c.required(self.tier);
         for r in req {
             let full_prefix = format!("{}|", c.name());
-            let found = self.sig_examples.keys().any(|k| k.starts_with(&full_prefix) && k[full_prefix.len()..].contains(r));
+            let found = self.sig_examples.keys().any(|k| k.starts_with(&full_prefix) && r.split("&&").all(|part| k[full_prefix.len()..].contains(part)));
             if !found {
                 self.machinery.push(format!("check {} no longer reaches required behaviour '{}' (vacuous harness)", c.name(), r));
             }
@@ -529,8 +529,10 @@ impl Report {
         }
         let nviol = self.unknown.len();
         // evidence
-        let mut sig_list: Vec<(&String, &u64)> = self.sig_examples.iter().collect();
-        sig_list.truncate(40);
+        let all_sigs: Vec<(&String, &u64)> = self.sig_examples.iter().collect();
+        // up to 60 examples spread evenly over the (sorted) distinct signatures
+        let stride = (all_sigs.len() + 59) / 60;
+        let sig_list: Vec<(&String, &u64)> = all_sigs.iter().step_by(stride.max(1)).cloned().collect();
         let seed: i64 = std::env::var("VERIF_SEED").ok().and_then(|s| s.parse().ok()).unwrap_or(0);
         let metrics: BTreeMap<String, Value> = self
             .metrics
